@@ -249,17 +249,34 @@ class GlobalModelRepository:
                 # print("LOADING {}".format(filename))
                 # all models loaded here get their references resolved from the
                 # root model
-                new_model = the_metamodel.internal_model_from_file(
-                    filename,
-                    pre_ref_resolution_callback=lambda other_model: (
-                        self.pre_ref_resolution_callback(  # noqa: E501
-                            other_model
-                        )
-                    ),
-                    is_main_model=is_main_model,
-                    encoding=encoding,
-                    model_params=model_params,
+                known_models = (
+                    {id(m) for m in self.all_models} if is_main_model else None
                 )
+                try:
+                    new_model = the_metamodel.internal_model_from_file(
+                        filename,
+                        pre_ref_resolution_callback=lambda other_model: (
+                            self.pre_ref_resolution_callback(  # noqa: E501
+                                other_model
+                            )
+                        ),
+                        is_main_model=is_main_model,
+                        encoding=encoding,
+                        model_params=model_params,
+                    )
+                except:  # noqa
+                    # A failed main model load (e.g. a failing model processor
+                    # which runs when the models are already finished) leaves
+                    # nothing of this attempt in this repository.
+                    if known_models is not None:
+                        self.remove_models(
+                            [
+                                m
+                                for m in list(self.all_models)
+                                if id(m) not in known_models
+                            ]
+                        )
+                    raise
                 self.all_models[filename] = new_model
             # print("ADDING {}".format(filename))
             if add_to_local_models:
